@@ -347,7 +347,10 @@ class Gen(object):
             if e:
                 items.append(('Elision', str(e)))
                 toks += [P(',')] * e
-            a, at = self.assignment(fuel - 1, False, False)
+            if fuel > 0 and self.chance(18):
+                a, at = self.array(fuel - 1)  # arrays nested directly in arrays (holes next to brackets)
+            else:
+                a, at = self.assignment(fuel - 1, False, False)
             items.append(a)
             toks += at
             if i < n - 1:
@@ -824,3 +827,15 @@ def program_strategy(cfg=None, max_fuel=6, layout_levels=(0, 1, 2, 3), lsps=True
                 offsets = [(i, off + len(lead)) for i, off in offsets]
         return {'tree': tree, 'toks': toks, 'text': text, 'level': level, 'offsets': offsets}
     return strat()
+
+
+def array_shapes(max_items=3):
+    """enumerated family of (nested) array literal shapes with holes in every position"""
+    import itertools
+    slots = ['a', '', '[1,,]', '[,]', '[]', '[b,[,,c,],]', '[[,],]']
+    for n in range(0, max_items + 1):
+        for combo in itertools.product(slots, repeat=n):
+            body = ','.join(combo)
+            yield 'x = [%s];' % body
+            if n:
+                yield 'x = [%s,];' % body
